@@ -44,7 +44,10 @@ SIDE2 = ["b", "beh-ar", "alef-hb", "one", "period", "acutecomb", "A-cy", "ka-dev
 VALUES = [-50, 35, 0, 6.5, -7.5]
 
 ENVS = ["categories", "ls-dflt", "ls-multi", "gsub-alt", "gsub-neutral-alt", "skip-b", "missing-in-group",
-        "q5", "q10", "no-ignoremarks", "gdef-carets"]
+        "q5", "q10", "no-ignoremarks", "gdef-carets", "long-names"]
+# "long-names": the groups carry names longer than a feature-file class name may be, and a second
+# group on each side shares its first 64 characters with them
+LONG = "L" * 64
 
 FEA = {
     "ls-dflt": "languagesystem DFLT dflt;\n",
@@ -113,6 +116,14 @@ def make_spec(gi, env, entries, ltr_only=False):
     if "missing-in-group" in env:
         kerning.append(("ghost", "b", -99))
         kerning.append(("public.kern1.Ghost", "b", -98))
+    if "long-names" in env:
+        ren = {G1: "public.kern1." + LONG + ".ss01", G2: "public.kern2." + LONG + ".ss01"}
+        groups = {ren.get(k, k): v for k, v in groups.items()}
+        kerning = [(ren.get(l, l), ren.get(r, r), v) for l, r, v in kerning]
+        groups["public.kern1." + LONG + ".ss02"] = ["one"]
+        groups["public.kern2." + LONG + ".ss02"] = ["one"]
+        kerning.append(("public.kern1." + LONG + ".ss02", "b", -33))
+        kerning.append(("a", "public.kern2." + LONG + ".ss02", 21))
     spec = {"glyphs": glyphs, "order": list(glyphs), "groups": groups, "kerning": kerning, "lib": {}}
     fea = "".join(FEA[e] for e in env if e in FEA)
     if fea:
